@@ -7,7 +7,7 @@ a second); C18 perturbs them."""
 SIMPLE_RANDOM = ['gnp', 'gnm', 'gnd']
 
 
-def simple_graph(rng, allow_random=True, maxn=6):
+def simple_graph(rng, allow_random=True, maxn=6, save_to=None):
     n = rng.randint(2, maxn)
     kinds = ['complete', 'empty', 'grid', 'torus']
     if allow_random:
@@ -28,18 +28,22 @@ def simple_graph(rng, allow_random=True, maxn=6):
         spec = ['torus', rng.randint(3, 4), rng.randint(3, 4)]
     else:
         spec = [k, n]
-    if allow_random and rng.random() < 0.35:
-        opt = rng.choice(['plantclique', 'addedges', 'splitedges'])
-        if opt == 'plantclique':
-            spec += ['plantclique', rng.randint(0, 2)]
-        elif opt == 'addedges':
-            spec += ['addedges', 0 if k in ('complete',) else rng.randint(0, 1)]
-        else:
-            spec += ['splitedges', 0 if k in ('empty',) else rng.randint(0, 1)]
+    if allow_random and rng.random() < 0.4:
+        # one to three DIFFERENT modifiers, in any order (each draws from the generator)
+        opts = rng.sample(['plantclique', 'addedges', 'splitedges'], rng.choice([1, 1, 2, 2, 3]))
+        for opt in opts:
+            if opt == 'plantclique':
+                spec += ['plantclique', rng.randint(0, 2)]
+            elif opt == 'addedges':
+                spec += ['addedges', 0 if k in ('complete',) else rng.randint(0, 1)]
+            else:
+                spec += ['splitedges', 0 if k in ('empty',) or (k == 'gnm' and spec[2] == 0) else rng.randint(0, 1)]
+    if save_to and rng.random() < 0.3:
+        spec += ['save', save_to]
     return spec
 
 
-def bipartite_graph(rng, allow_random=True):
+def bipartite_graph(rng, allow_random=True, save_to=None):
     l, r = rng.randint(1, 5), rng.randint(1, 5)
     kinds = ['complete', 'empty', 'shift']
     if allow_random:
@@ -63,11 +67,14 @@ def bipartite_graph(rng, allow_random=True):
         spec = ['shift', l, r] + pat
     else:
         spec = [k, l, r]
-    if allow_random and rng.random() < 0.3:
-        if rng.random() < 0.5:
-            spec += ['plantbiclique', rng.randint(0, 1), rng.randint(0, 1)]
-        else:
-            spec += ['addedges', 0 if k == 'complete' else (1 if k in ('empty',) else 0)]
+    if allow_random and rng.random() < 0.35:
+        for opt in rng.sample(['plantbiclique', 'addedges'], rng.choice([1, 1, 2])):
+            if opt == 'plantbiclique':
+                spec += ['plantbiclique', rng.randint(0, 1), rng.randint(0, 1)]
+            else:
+                spec += ['addedges', 0 if k == 'complete' else (1 if k in ('empty',) else 0)]
+    if save_to and rng.random() < 0.3:
+        spec += ['save', save_to]
     return spec
 
 
@@ -186,7 +193,7 @@ def formula_cmd(rng, tool='cnfgen', allow_random=True):
     raise AssertionError(f)
 
 
-def transformation(rng, allow_random=True, maxk=3):
+def transformation(rng, allow_random=True, maxk=3, nvars=None):
     t = rng.choice(['xor', 'or', 'maj', 'eq', 'neq', 'one', 'exact', 'atleast', 'atmost', 'anybut', 'ite', 'lift',
                     'flip', 'none'] + (['shuffle', 'shuffle', 'xorcomp', 'majcomp'] if allow_random else []))
     r = rng.randint
@@ -200,7 +207,11 @@ def transformation(rng, allow_random=True, maxk=3):
     if t == 'shuffle':
         return ['-T', t] + [o for o in ('-p', '-v', '-c') if rng.random() < 0.3]
     if t in ('xorcomp', 'majcomp'):
-        return ['-T', t, r(2, 6), r(1, 2)]
+        if rng.random() < 0.5:
+            return ['-T', t, r(2, 6), r(1, 2)]
+        # explicit random bipartite graph: left side must be the number of variables, which the grammar
+        # does not know; an error is a legitimate outcome, a formula must be reproducible
+        return ['-T', t] + rng.choice([['glrd', nvars or r(1, 8), r(2, 5), 2], ['glrp', nvars or r(1, 8), r(2, 5), '.5'], ['glrm', nvars or r(1, 8), 4, r(0, 4)]])
     raise AssertionError(t)
 
 
